@@ -77,3 +77,14 @@ Theorem C09_for_each_fewer_than_n_unfinished_at_every_pull :
   npull pre < p_cap p + nprodc pre.
 Proof. exact fec_pulls_only_while_fewer_than_n_unfinished. Qed.
 Print Assumptions C09_for_each_fewer_than_n_unfinished_at_every_pull.
+
+(** between operations, over the whole history of a for_each_concurrent: items pulled so far =
+    futures finished so far + futures in the queue, and the queue's capacity is n *)
+Theorem C09_for_each_accounting :
+  forall (P : params), params_ok P ->
+  forall (p : cparams) (inits : list (N * script)) (ups : list upstep) (rest : list op) (a : fec),
+  st_coll (run_state P init_state (OBuild TFEC p inits ups :: rest)) = CFec a ->
+  let h := hist_of P (OBuild TFEC p inits ups :: rest) in
+  fub_cap (fe_q a) = p_cap p /\ npull h = nprodc h + fub_len (fe_q a).
+Proof. exact fec_accounting. Qed.
+Print Assumptions C09_for_each_accounting.
